@@ -197,6 +197,16 @@ def _default(env, cfg, ctx):
     env.claim('subset_unmodified', list(S_obj) == S_copy)
     env.claim('defaults_unmodified', all(same_term(defaults[k], defaults_copy[k]) for k in defaults_copy))
     env.claim('no_random_draws', len(ctx.py_random.calls) == 0)
+    if S and not cfg.get('sparse'):
+        # the imputer is re-configured through its public attribute, the same subset (an equal list) is imputed again:
+        # the model sees the CURRENT defaults (a per-subset memo of the replacement values would be stale)
+        new_defaults = sym_row(env, names, 'dflt2')
+        imp.values = new_defaults
+        n0 = len(model.calls)
+        guarded(env, 'impute_after_reconfiguration', imp.impute, list(S_copy), x, 1)
+        for z in model.calls[n0:]:
+            env.claim('reconfigured_defaults_are_used', all(f in z for f in names) and
+                      all(same_term(z[f], new_defaults[f] if f in S else x[f]) for f in names if f in z))
     if S:
         env.canary('subset_not_left_untouched', all(f in x and same_term(model.calls[0][f], x[f]) for f in S))
 
@@ -279,3 +289,5 @@ def _empty_storage(env, cfg, ctx):
     env.claim('first_observation_stored_alone_with_its_target', len(xs) == 1 and xs[0] is x1 and len(ys_now) == 1 and same_term(ys_now[0], y1))
 
 META['explanation'] += ' Further groups: sparse instance for the default imputer; imputing from an empty storage leaves it empty and usable; the model object carries decoy estimator methods that must not be called.'
+
+META['explanation'] += ' default: after re-configuring the imputer (imp.values = new dict) the same subset is imputed with the current defaults.'
